@@ -3,7 +3,7 @@ import json
 import envcheck
 
 
-def run(ck, family, tier, seed, replay, n_quick=150, n_thorough=1500):
+def run(ck, family, tier, seed, replay, n_quick=150, n_thorough=1500, only=None):
     runs = [["-replay", replay]] if replay else [["-seed", str(seed), "-n", str(n_quick if tier == "quick" else n_thorough), "-x", family]]
     cases = envcheck.run_harness(ck, "conc", runs, timeout=1500)
     if cases is None:
@@ -12,6 +12,9 @@ def run(ck, family, tier, seed, replay, n_quick=150, n_thorough=1500):
             ck.violations[-1] = (ck.replay_file("crash-" + family, {"what": "the process crashed while running controlled schedules of family %s" % family,
                                                                      "rerun": "vrun conc " + " ".join(runs[0])}), "")
         return None
+    if only:
+        for c in cases:
+            c["viol"] = [v for v in (c.get("viol") or []) if only in v]
     viol = [c for c in cases if c.get("viol")]
     nt = set(json.dumps(c.get("trace")) for c in cases if len(c.get("trace") or []) >= 8)
     ck.cov.setdefault("schedules", {})[family] = {
